@@ -142,8 +142,9 @@ def region_equivalent(ra, rb, fa=None, fb=None):
         names &= (set(_loads(fa)) | set(_loads(fb)))
     names = sorted(names)
     try:
-        pa = nf.NF(ra, final_names=names, max_paths=MAX_REGION_PATHS).run()
-        pb = nf.NF(rb, final_names=names, max_paths=MAX_REGION_PATHS).run()
+        live = (set(_loads(fa)) | set(_loads(fb))) if (fa is not None and fb is not None) else set(_assigned_names(ra) | _assigned_names(rb))
+        pa = nf.NF(ra, final_names=names, max_paths=MAX_REGION_PATHS, live_after=live).run()
+        pb = nf.NF(rb, final_names=names, max_paths=MAX_REGION_PATHS, live_after=live).run()
     except summ.Unsupported as e:
         if DEBUG is not None and len(DEBUG) < 50:
             DEBUG.append((len(ra), len(rb), 0, 0, None, "not computable: %s" % e))
